@@ -139,16 +139,17 @@ class QueryCheck:
         if tag is not None:
             c["_tag"] = tag
         self.next_id += 1
-        self.cases.append(c)
-        return c
+        # kept as compact text until its chunk is executed: hundreds of thousands of cases as nested dicts need several
+        # gigabytes (the thorough tier of C01 was killed at ~370 000 cases)
+        self.cases.append(json.dumps(c, separators=(",", ":")))
 
     def execute(self, nontrivial, classify=None, module="TraceQuery"):
         """Replay all cases, validate, classify.  nontrivial(trace) -> key or None."""
         run = self.run
-        by_id = {c["id"]: c for c in self.cases}
         CH = 8000
         for k in range(0, len(self.cases), CH):
-            chunk = self.cases[k:k + CH]
+            chunk = [json.loads(x) for x in self.cases[k:k + CH]]
+            by_id = {c["id"]: c for c in chunk}
             traces = run.replay(chunk)
             for t in traces:
                 if "build_exc" in t:      # construction failed: every event is an exception
@@ -227,7 +228,7 @@ def check_C01(tier, seed):
             dom = list(range(1, len(W["objs"]) + 1))
             rng.shuffle(dom)
             qc.add(W, [mk_query(p, [dom])], [drain_ev()], dump_graph=True)
-        if not quick or rng.random() < 0.4:
+        if rng.random() < (0.4 if quick else 0.25):
             # distinct objects that compare equal to one another are distinct all the same (each is judged, and
             # returned, on its own)
             W = datasets.value_equal_world(rng, rng.randint(3, 6))
@@ -1353,6 +1354,13 @@ def check_C13(tier, seed):
             dom = rng.sample(range(1, n + 1), rng.randint(2, n))
             qc.add(W, [mk_term_query(p, [dom]), mk_term_query(p, [dom], build="explicit")],
                    [drain_ev(1), drain_ev(2, eqto=1), drain_ev(1, eqto=1)], tag="kwonly")
+    # the supplied domain is itself a query: the variable ranges over that query's solutions
+    sprogs = run.export("GenTerm", "subdom", "PROG", constants=dict(Part="subdom"), invariants=("Export",))
+    for p in sprogs:
+        for _ in range(reps * 3):
+            W = datasets.random_world(rng, rng.randint(3, 6))
+            dom = datasets.domains_for(rng, W, 1, maxdom=5)
+            qc.add(W, [mk_term_query(p, dom)], [drain_ev(1), drain_ev(1, eqto=1), drain_ev(1, eqto=1)], tag="query-as-domain")
     for p in tprogs:
         for _ in range(reps * 4):
             n = rng.randint(3, 7)
@@ -1593,6 +1601,17 @@ def check_C09(tier, seed):
         q = {"vars": [{"cls": "A", "dom": doms[0]}, {"cls": "A", "dom": doms[1]}], "flats": [], "bound": [],
              "desc": "entity", "quant": "infer", "sel": [], "cond": p["cond"], "head": p["head"], "varkeys": [1, 2]}
         add(W, q, "infer")
+    # a variable whose domain is a query that uses predicates: an evaluation abandoned inside a block, then full ones
+    # inside and outside blocks
+    sprogs = run.export("GenTerm", "subdom", "PROG", constants=dict(Part="subdom"), invariants=("Export",), count=False)
+    for p in sprogs:
+        for _ in range(4 if quick else 40):
+            W = datasets.random_world(rng, rng.randint(3, 6))
+            dom = datasets.domains_for(rng, W, 1, maxdom=5)
+            amb = rng.choice(["query", "rule", "symq"])
+            qc.add(W, [mk_term_query(p, dom)],
+                   [{"op": "partial", "qi": 1, "k": 1, "how": rng.choice(["close", "drop"]), "ambient": amb},
+                    dict(drain_ev(1), ambient="none"), dict(drain_ev(1, eqto=2), ambient=amb)], tag="query-as-domain")
     # HasType over a hierarchy
     x = {"k": "var", "i": 1}
     for _ in range(150 if quick else 3000):
